@@ -758,3 +758,15 @@ def value_lit(v):
     if v[0] == 'T':
         return '(VTree %s %s)' % (S(v[1]), L([value_lit(c) for c in v[2]]))
     return '(VUser %s %s)' % (S(v[1]), L([value_lit(c) for c in v[2]]))
+
+
+def show_v(v):
+    if v is None:
+        return 'None'
+    if v[0] == 'exc':
+        return 'exception %s' % (v[1],)
+    if v[0] == 't':
+        return '%s:%s' % (v[1], v[2])
+    if v[0] == 'T':
+        return '%s(%s)' % (v[1], ' '.join(show_v(c) for c in v[2]))
+    return '<%s>(%s)' % (v[1], ' '.join(show_v(c) for c in v[2]))
